@@ -162,6 +162,11 @@ fn try_resolve(
     infer_manager: &mut InferCacheManager,
     reason_reasolve: &mut HashMap<InferFailReason, Vec<UnResolve>>,
 ) {
+    #[cfg(feature = "verif-hooks")]
+    let mut reason_view =
+        crate::verif_hooks::OrderedMapView::new("unresolve.try_resolve", reason_reasolve);
+    #[cfg(feature = "verif-hooks")]
+    let reason_reasolve = &mut reason_view;
     loop {
         let mut changed = false;
         let mut to_be_remove = Vec::new();
